@@ -377,6 +377,14 @@ pub fn redo_renaming(id: &str, renamify_dir: &Path) -> Result<()> {
         return Err(anyhow!("Entry '{}' has not been reverted", id));
     }
 
+    // An operation can be redone only while it is undone: a redo is recorded under the id
+    // "redo-<id>-<timestamp>", and an entry can be reverted only once, so one such entry means
+    // the operation is applied again (undo that entry to take it back)
+    let redo_prefix = format!("redo-{}-", id);
+    if entries.iter().any(|e| e.id.starts_with(&redo_prefix)) {
+        return Err(anyhow!("Entry '{}' has already been redone", id));
+    }
+
     eprintln!("Redoing renaming '{}'...", id);
 
     // Load the original plan from disk
